@@ -67,7 +67,7 @@ class NoFiniteDraw(BaseException):  # control flow of the harness, must pass thr
     pass
 
 
-def run_case(case, n_total_mult=2, built=None, on_no_finite="report"):
+def run_case(case, n_total_mult=2, built=None, on_no_finite="report", run_kwargs=None, warm=None):
     if built is None:
         t = make_target(case)
         np.random.seed(case["seed"])
@@ -77,7 +77,7 @@ def run_case(case, n_total_mult=2, built=None, on_no_finite="report"):
         s, t = built
     core = core_of(s)
     st_ = core.state
-    warm = []  # (beta, n_total, n_finite, logz recorded at commit)
+    warm = [] if warm is None else warm  # [n_total, n_finite, logz recorded at commit] per prior-sampling batch
     mark = {}
 
     def before(*a, **k):
@@ -107,7 +107,7 @@ def run_case(case, n_total_mult=2, built=None, on_no_finite="report"):
     wrap_method(st_, "commit_current_to_history", before=at_commit)
     with quiet():
         try:
-            lib_call(s.run, n_total=max(64, n_total_mult * case["N"]), progress=False, what="Sampler.run")
+            lib_call(s.run, n_total=max(64, n_total_mult * case["N"]), progress=False, what="Sampler.run", **(run_kwargs or {}))
         except NoFiniteDraw:
             return s, t, None
     return s, t, warm
@@ -128,6 +128,54 @@ def exec_full(case):
 
     np.random.seed(case["rs_value"] % 2**31)
     return exec_case(case, built=cfggen.build(case))
+
+
+def hull_check(case, warm, label=""):
+    lo, hi = math.inf, -math.inf
+    for k, (n_tot, n_fin, lz) in enumerate(warm):
+        if n_fin == 0:
+            return
+        lf = math.log(n_fin / n_tot)
+        lo, hi = min(lo, lf), max(hi, lf)
+        if lz is None or not (lo - 1e-9 <= lz <= hi + 1e-9):
+            raise Violation(
+                f"{label}warm-up iteration {k + 1}: recorded log-evidence {lz!r} outside the range [{lo:.6f}, {hi:.6f}] of the batch fractions "
+                f"log(finite/total) seen so far: the excluded mass is not counted exactly once", sig={"kind": "warmup-logz-outside-hull"})
+
+
+def exec_resume(case):
+    """the prior-sampling phase interrupted and resumed: a run writes a checkpoint after every iteration; a FRESH sampler (and, in
+    half of the cases, the SAME sampler object) resumes from a checkpoint taken while beta was still 0 - the evidence recorded for
+    every later warm-up batch must still lie in the range of the batch fractions seen so far (those before the checkpoint included)"""
+    import glob
+    import os
+
+    from vlib.runs import scratch_dir
+
+    with scratch_dir() as od:
+        t = make_target(case)
+        np.random.seed(case["seed"])
+        cfg = dict(sample=case["kernel"], clustering=case["clustering"], n_particles=case["N"], ess_ratio=case["ess_ratio"],
+                   volume_variation=case.get("vv"), resample=case.get("resample", "mult"))
+        s = make_sampler(t, cfg, output_dir=od)
+        s, t, warm = run_case(case, built=(s, t), run_kwargs={"save_every": 1})
+        files = {int(os.path.basename(f).split("_")[-1].split(".")[0]): f for f in glob.glob(os.path.join(od, "*.state"))
+                 if not f.endswith("_final.state")}
+        ks = [k for k in sorted(files) if k < len(warm)]  # checkpoints written while beta was still 0 with a warm-up batch still to come
+        if not ks:
+            return False
+        k = ks[case["seed"] % len(ks)]
+        for same_object in ((False, True) if case["seed"] % 2 else (False,)):
+            if same_object:
+                s2, t2 = s, t
+            else:
+                t2 = make_target(case)
+                s2 = make_sampler(t2, cfg, output_dir=od)
+            np.random.seed(case["seed"] + 5)
+            w2 = [list(w) for w in warm[:k]]
+            run_case(case, built=(s2, t2), run_kwargs={"resume_state_path": files[k]}, warm=w2)
+            hull_check(case, w2, label=f"resumed from the checkpoint after warm-up batch {k} ({'same' if same_object else 'fresh'} sampler object): ")
+    return True
 
 
 def exec_case(case, built=None):
@@ -179,7 +227,8 @@ def exec_case(case, built=None):
                 f"warm-up iteration {k + 1}: recorded log-evidence {lz!r} outside the range [{lo:.6f}, {hi:.6f}] of the batch fractions "
                 f"log(finite/total) seen so far: the excluded mass is not counted exactly once",
                 sig={"kind": "warmup-logz-outside-hull"})
-    classes = ["metric:" + ("ess" if case.get("vv") is None else "vv"), "warmups=%d" % min(len(warm), 9), "f=?" if case["f"] is None else ("f<0.5" if case["f"] < 0.5 else "f>=0.5"), "mode:" + case["mode"],
+    resumed = built is None and case["seed"] % 3 == 0 and exec_resume(case)
+    classes = (["resumed-in-warm-up"] if resumed else []) + ["metric:" + ("ess" if case.get("vv") is None else "vv"), "warmups=%d" % min(len(warm), 9), "f=?" if case["f"] is None else ("f<0.5" if case["f"] < 0.5 else "f>=0.5"), "mode:" + case["mode"],
                "clustering" if case["clustering"] else "noclustering"]
     return {"nontrivial": with_inf >= 2, "classes": classes,
             "sample": {"f": case["f"], "N": case["N"], "ess_ratio": case["ess_ratio"], "warmup_batches": [[w[0], w[1], w[2]] for w in warm][:8]}}
